@@ -197,6 +197,10 @@ Variable t : nat.
 Variable rec : mode -> bool -> owner -> list sstate -> kont -> rres.
 Variable recscen : sstate -> sres * list event.
 Variable recmon : sstate -> (option sstate * bool * bool * option outcome) * list event.
+(* quirk switch: does `terminate` executed by a monitor of a SUB-scenario reach the parent as a
+   termination reason (current implementation: yes, the whole simulation ends; documented and
+   repaired behaviour: no, only that sub-scenario stops)?  The harness probes which one the tree has. *)
+Variable qsub : bool.
 
 (* DynamicScenario._invokeInner, the `for sub in self._subScenarios` loop *)
 Fixpoint step_subs (subs : list sstate) : (list sstate * option sres) * list event :=
@@ -389,34 +393,41 @@ Fixpoint check_termwhen (sid idx : nat) (cs : list cond) : bool * list event :=
               else let '(b, e) := check_termwhen sid (S idx) r in (b, ETermWhen sid idx :: e)
   end.
 
+(* the part of DynamicScenario._step after the compose block: finished compose block? termination
+   conditions?  (a scenario with guards but no compose block gets a generated no-op compose block) *)
+Definition has_compose (sc : scenario) : bool :=
+  match s_compose sc, s_pre sc, s_inv sc with
+  | Some _, _, _ => true
+  | None, _ :: _, _ => true
+  | None, [], _ :: _ => true
+  | None, [], [] => false
+  end.
+Definition scen_fin (sc : scenario) (sid el : nat) (mons : list (nat * gstate))
+                    (k' : option kont) (subs' : list sstate) (e : list event) : sres * list event :=
+  if (match k' with None => has_compose sc | Some _ => false end) then (SStopped, e)
+  else let '(b, e2) := check_termwhen sid 0 (s_termwhen sc) in
+       if b then (SStopped, e ++ e2) else (SCont (SState sid (S el) k' mons subs'), e ++ e2).
+
+Definition limit_reached (sc : scenario) (el : nat) : bool :=
+  match s_limit sc with Some L => Qle_bool L (inject_Z (Z.of_nat el)) | None => false end.
+
 (* DynamicScenario._step *)
 Definition scen_body (st : sstate) : sres * list event :=
   let '(SState sid el k mons subs) := st in
   match nth_error (p_scenarios P) sid with
   | None => (SBad OError, [])
   | Some sc =>
-      if (match s_limit sc with Some L => Qle_bool L (inject_Z (Z.of_nat el)) | None => false end)
-      then (SStopped, [])                                  (* reached time limit *)
+      if limit_reached sc el then (SStopped, [])           (* reached time limit *)
       else
-        let fin (k' : option kont) (subs' : list sstate) (e : list event) :=
-          (* after the compose block: finished compose block? termination conditions? *)
-          if (match k', s_compose sc, s_pre sc, s_inv sc with
-              | None, Some _, _, _ => true
-              | None, None, _ :: _, _ => true
-              | None, None, [], _ :: _ => true
-              | _, _, _, _ => false
-              end) then (SStopped, e)
-          else let '(b, e2) := check_termwhen sid 0 (s_termwhen sc) in
-               if b then (SStopped, e ++ e2) else (SCont (SState sid (S el) k' mons subs'), e ++ e2) in
         match k with
-        | None => fin None subs []
+        | None => scen_fin sc sid el mons None subs []
         | Some kc =>
             let '(out, e, subs') := rec (MScen sid) false (OScen sid) subs kc in
             match out with
             | OYield YEndScenario _ => (SStopped, e)
             | OYield YEndSim _ => (SEndSim, e)
-            | OYield _ k' => fin (Some k') subs' e
-            | ODone => fin None subs' e
+            | OYield _ k' => scen_fin sc sid el mons (Some k') subs' e
+            | ODone => scen_fin sc sid el mons None subs' e
             | OBlock _ => (SBad OError, e)
             | bad => (SBad bad, e)
             end
@@ -455,15 +466,17 @@ Fixpoint mons_of_subs (subs : list sstate) : (list sstate * bool * option outcom
   match subs with
   | [] => ([], false, None, [])
   | s :: r =>
-      let '(s', reason, _, bad, e1) := recmon s in
+      let '(s', endsim1, endscen1, bad, e1) := recmon s in
+      let reason := endsim1 || (qsub && endscen1) in
       match bad with
       | Some x => ([], false, Some x, e1)
       | None => let '(l, reason2, bad2, e2) := mons_of_subs r in
                 (match s' with Some x => x :: l | None => l end, reason || reason2, bad2, e1 ++ e2)
       end
   end.
-(* DynamicScenario._runMonitors: (state unless stopped, reason is not None, reason is `terminate`
-   of this very scenario, failure) *)
+(* DynamicScenario._runMonitors: (state unless stopped, a `terminate simulation` (or, under qsub, a
+   sub-scenario's reason) was seen, a monitor of this very scenario executed `terminate`, failure);
+   the value returned by the Python method is not None iff one of the two booleans holds *)
 Definition mon_body (st : sstate) : (option sstate * bool * bool * option outcome) * list event :=
   let '(SState sid el k mons subs) := st in
   let '(mons', endsim, endscen, bad, e1) := step_monitors mons in
@@ -475,7 +488,7 @@ Definition mon_body (st : sstate) : (option sstate * bool * bool * option outcom
       | Some x => (None, false, false, Some x, e1 ++ e2)
       | None =>
           (if endscen then None else Some (SState sid el k mons' subs'),
-           endsim || subreason || endscen, endscen, None, e1 ++ e2)
+           endsim || subreason, endscen, None, e1 ++ e2)
       end
   end.
 End Body.
@@ -491,11 +504,11 @@ with step_scen (fuel : nat) (P : program) (w : world) (t : nat) (st : sstate) {s
   | 0 => (SBad OStuck, [])
   | S f => scen_body P w t (run f P w t) st
   end.
-Fixpoint run_mons (fuel : nat) (P : program) (w : world) (t : nat) (st : sstate) {struct fuel}
+Fixpoint run_mons (qsub : bool) (fuel : nat) (P : program) (w : world) (t : nat) (st : sstate) {struct fuel}
   : (option sstate * bool * bool * option outcome) * list event :=
   match fuel with
   | 0 => (None, false, false, Some OStuck, [])
-  | S f => mon_body (run fuel P w t) (run_mons f P w t) st
+  | S f => mon_body (run fuel P w t) (run_mons qsub f P w t) qsub st
   end.
 
 (* ------------------------------------------------------------------------------------------ simulation *)
@@ -575,7 +588,18 @@ Definition phase_scen (fuel : nat) (P : program) (w : world) (s : sim) : sres * 
 Definition phase_record (P : program) (s : sim) : list event :=
   (if Nat.eqb (time s) 0 then map ERecord (p_rec_init P) else []) ++ map ERecord (p_records P).
 
-Definition sim_step (fuel : nat) (P : program) (w : world) (maxSteps : option nat)
+(* `if maxSteps and self.currentTime >= maxSteps` *)
+Definition step_limit_hit (maxSteps : option nat) (t : nat) : bool :=
+  match maxSteps with Some (S m) => Nat.leb (S m) t | _ => false end.
+
+Definition phase_mon (qsub : bool) (fuel : nat) (P : program) (w : world) (t : nat) (top1 : option sstate)
+  : (option sstate * bool * bool * option outcome) * list event :=
+  match top1 with
+  | Some st => run_mons qsub fuel P w t st
+  | None => ((None, false, false, None), [])      (* a stopped scenario has no monitors left *)
+  end.
+
+Definition sim_step (qsub : bool) (fuel : nat) (P : program) (w : world) (maxSteps : option nat)
                     (sched : nat -> list nat) (s : sim) : step_result * list event :=
   let t := time s in
   (* 1. dynamicScenario._step() *)
@@ -589,11 +613,9 @@ Definition sim_step (fuel : nat) (P : program) (w : world) (maxSteps : option na
       let e2 := phase_record P s in
       let s2 := {| time := t; top := top1; agents := agents s; traj := S (traj s); actlog := actlog s |} in
       (* 3. dynamicScenario._runMonitors() (a stopped scenario has no monitors left) *)
-      let '(mr, e3) := match top1 with
-                       | Some st => run_mons fuel P w t st
-                       | None => ((None, false, false, None), [])
-                       end in
-      let '(top3, mreason, _, mbad) := mr in
+      let '(mr, e3) := phase_mon qsub fuel P w t top1 in
+      let '(top3, mendsim, mendscen, mbad) := mr in
+      let mreason := mendsim || mendscen in
       match mbad with
       | Some x => (Stop (kind_of_outcome x) s2, e1 ++ e2 ++ e3)
       | None =>
@@ -604,7 +626,7 @@ Definition sim_step (fuel : nat) (P : program) (w : world) (maxSteps : option na
           else
             let '(tc, e4) := check_termsim w t 0 (p_termsim P) in
             if tc then (Stop (RDone TSimCond) s3, e1 ++ e2 ++ e3 ++ e4)
-            else if (match maxSteps with Some (S m) => Nat.leb (S m) t | _ => false end)
+            else if step_limit_hit maxSteps t
             then (Stop (RDone TTimeLimit) s3, e1 ++ e2 ++ e3 ++ e4)
             else
               (* 5. behaviours in schedule order *)
@@ -627,15 +649,15 @@ Definition result_of (k : rkind) (s : sim) : result :=
   {| r_kind := k; r_time := time s; r_traj := traj s; r_actions := rev (actlog s) |}.
 
 (* the loop itself; [n] bounds the number of iterations (exhaustion = RStuck) *)
-Fixpoint sim_loop (n : nat) (fuel : nat) (P : program) (w : world) (maxSteps : option nat)
+Fixpoint sim_loop (qsub : bool) (n : nat) (fuel : nat) (P : program) (w : world) (maxSteps : option nat)
                   (sched : nat -> list nat) (s : sim) : result * list event :=
   match n with
   | 0 => (result_of RStuck s, [])
   | S n' =>
-      let '(r, e) := sim_step fuel P w maxSteps sched s in
+      let '(r, e) := sim_step qsub fuel P w maxSteps sched s in
       match r with
       | Stop k s' => (result_of k s', e)
-      | Next s' => let '(res, e') := sim_loop n' fuel P w maxSteps sched s' in (res, e ++ e')
+      | Next s' => let '(res, e') := sim_loop qsub n' fuel P w maxSteps sched s' in (res, e ++ e')
       end
   end.
 
@@ -674,13 +696,13 @@ Definition init_sim (P : program) (w : world) : (sim + rkind) * list event :=
 Definition final_events (P : program) : list event := map ERecord (p_rec_final P).
 
 (* Simulator.simulate for one simulation: result and complete event log *)
-Definition simulate (n fuel : nat) (P : program) (w : world) (maxSteps : option nat)
+Definition simulate (qsub : bool) (n fuel : nat) (P : program) (w : world) (maxSteps : option nat)
                     (sched : nat -> list nat) : result * list event :=
   let '(i, e0) := init_sim P w in
   match i with
   | inr k => ({| r_kind := k; r_time := 0; r_traj := 0; r_actions := [] |}, e0)
   | inl s =>
-      let '(res, e) := sim_loop n fuel P w maxSteps sched s in
+      let '(res, e) := sim_loop qsub n fuel P w maxSteps sched s in
       (res, e0 ++ e ++ match r_kind res with RDone _ => final_events P | _ => [] end)
   end.
 
